@@ -410,6 +410,7 @@ def units():
             Unit("Mesh.find_boundary_indices", "tdgl.finite_volume.mesh:Mesh.find_boundary_indices", lambda m=None: _mc().run_boundary_indices(m), props=["C07"], timeout=300),
             Unit("make_adj_directed_tri_indices", U_ + ":make_adj_directed_tri_indices", lambda m=None: _mc().run_adjacency(m), props=["C07"], timeout=300),
             Unit("get_dual_edge_lengths", U_ + ":get_dual_edge_lengths", lambda m=None: _mc().run_dual_edge_lengths(m), props=["C07"], timeout=300),
+            Unit("Mesh.from_triangulation", "tdgl.finite_volume.mesh:Mesh.from_triangulation / Mesh.compute_voronoi_areas_polygons", lambda m=None: _mc().run_from_triangulation(m), props=["C07", "C14"], timeout=300),
             Unit("make_mesh postconditions [bounded]", "tdgl.device.device:Device.make_mesh (Triangle, qhull)", run_native_quick, props=["C07"], timeout=600, kind="bounded")]
 
 
